@@ -8,6 +8,7 @@ GENERATORS = [
     ("pkgstate", "PackageState.lean", ["{repo}"]),
     ("unicode", "Unicode.lean", []),
     ("evalfacts", "EvalFacts.lean", ["{repo}"]),
+    ("numfacts", "NumFacts.lean", ["{repo}"]),
 ]
 
 
@@ -638,5 +639,5 @@ PROPERTIES = {
                    nontrivial=lambda obs, case: len(probe_values(obs)) >= 5,
                    extra_streams=[{"stream": "f64", "profile": "all", "quick": 20000, "thorough": 1000000, "nontrivial": lambda obs, case: True}],
                    rule="run/numeric: every numeric and conversion built-in applied, through a script, to doubles |x| < 2^52 supplied through the storer (random bit patterns, integers, half-way cases, neighbours of integers, signed zeros, subnormals; n in 0..8) and captured by a host function; the contracts of the property are evaluated on the implementation's results in exact rational arithmetic; f64/all: the softfloat model against the compiler's arithmetic, bit for bit",
-                   leanchecker=["Ysgo.Props.C19", "Ysgo.Props.C19Roundtrip"], trusted=["python fractions for the contract predicates"]),
+                   leanchecker=["Ysgo.Props.C19", "Ysgo.Props.C19Roundtrip", "Ysgo.Props.C19Facts"], trusted=["python fractions for the contract predicates"]),
 }
